@@ -11,7 +11,7 @@
 //!   `lower <prog> <ix> <dischex> <idlset>`           Codama lowering of that instruction
 //!   `cnames <prog> ix|ty (<names>)` / `cnames-inorder <prog> acct (<names>)`   names/order in the ProgramNode
 //!   `usize <hex>`                        `discriminant_to_usize` through an enum variant
-//!   `fields <name> (<names>)`          field names+order of a harness struct type in the IDL (op: Rust declaration order)
+//!   `fields <name> <k> (<names>)`      field names+order of a harness struct type in the IDL (op: Rust declaration order; k = number visible)
 //!   `ty <name> <shape>` / `enc <name> <shape> <val>` / `dec <idlty> <hex>`       type layouts
 //!   `set <name> <setshape>` / `metas <name> <setshape> <progid> <present>`      harness account sets
 use crate::{
@@ -123,6 +123,10 @@ pub fn programs() -> Vec<Prog> {
                 shipped::ix_row::<crate::HxIdl, sets::SetNested>(),
                 shipped::ix_row::<crate::HxIdl, sets::SetInit>(),
                 shipped::ix_row::<crate::HxIdl, sets::SetOne>(),
+                shipped::ix_row::<crate::HxIdl, sets::SetManyMid>(),
+                shipped::ix_row::<crate::HxIdl, sets::SetRestMid>(),
+                shipped::ix_row::<crate::HxIdl, sets::SetTwoMany>(),
+                shipped::ix_row::<crate::HxIdl, sets::SetNestedManyMid>(),
                 shipped::ix_row::<crate::HxIdl, sets::SetOptFlat>(),
                 shipped::ix_row::<crate::HxIdl, sets::SetEmpty>(),
                 shipped::ix_row::<crate::HxIdl, sets::WithArgs>(),
@@ -155,6 +159,11 @@ shipped::dummy_struct!(sets::EmptyClientAccounts {});
 shipped::dummy_struct!(sets::SetNestedClientAccounts { head, pair, boxed, one, tup, none, bx });
 shipped::dummy_struct!(sets::SetInitClientAccounts { funder, owner, sys, zc, un, existing, seeded, borsh, val });
 shipped::dummy_struct!(sets::SetOneClientAccounts { only });
+shipped::dummy_struct!(sets::SetManyMidClientAccounts { vaults, authority });
+shipped::dummy_struct!(sets::SetRestMidClientAccounts { head, others, tail });
+shipped::dummy_struct!(sets::SetTwoManyClientAccounts { head, pair, others });
+shipped::dummy_struct!(sets::InnerManyClientAccounts { who, list });
+shipped::dummy_struct!(sets::SetNestedManyMidClientAccounts { inner, after });
 shipped::dummy_struct!(sets::SetOptFlatClientAccounts { a, b, mid, last });
 shipped::dummy_struct!(sets::SetDowngradeClientAccounts { a, b });
 shipped::dummy_struct!(sets::wide::WideAClientAccounts { who, acct });
@@ -527,10 +536,11 @@ fn exec(env: &mut Env, rec: &mut Recorder, line: &str) -> String {
             let Some(frag) = a(1).and_then(|n| env.type_frag.get(n)) else { return "bad-op".into() };
             format!("ok {}", sx::show_idl_ty(&env.type_idl, frag, 0))
         }
-        ("fields", 3) => {
+        ("fields", 4) => {
             // names of the struct's fields as the IDL has them (the op carries the Rust declaration order)
             let Some(frag) = a(1).and_then(|n| env.type_frag.get(n)) else { return "bad-op".into() };
-            let Sx::L(want) = &xs[2] else { return "bad-op".into() };
+            let Sx::L(want) = &xs[3] else { return "bad-op".into() };
+            let Some(k) = a(2).and_then(|k| k.parse::<usize>().ok()) else { return "bad-op".into() };
             let got: Vec<String> = match frag {
                 IdlTypeDef::Defined(id) => match env.type_idl.get_type(&id.source).map(|t| &t.type_def) {
                     Some(IdlTypeDef::Struct(fs)) => fs.iter().map(|f| f.path.clone().unwrap_or_else(|| "#".into())).collect(),
@@ -539,8 +549,12 @@ fn exec(env: &mut Env, rec: &mut Recorder, line: &str) -> String {
                 _ => return "bad-op".into(),
             };
             let want: Vec<String> = want.iter().filter_map(|x| x.atom().map(|s| s.to_string())).collect();
-            if got != want {
-                rec.fail("idl_struct_field_names_differ", &format!("{line}: idl {got:?}"));
+            // the IDL must list the Rust fields in declaration order: all of them, or — with
+            // `#[type_to_idl(skip)]` — a PREFIX of them (never a selection with a hole)
+            if got.len() > want.len() || got[..] != want[..got.len()] {
+                rec.fail("idl_struct_fields_not_a_prefix_of_the_layout", &format!("{line}: idl {got:?}"));
+            } else if got.len() != k {
+                rec.fail("idl_struct_field_names_differ", &format!("{line}: idl {got:?}, expected the first {k}"));
             }
             format!("ok {}", if got.is_empty() { "-".to_string() } else { got.join(" ") })
         }
@@ -549,13 +563,18 @@ fn exec(env: &mut Env, rec: &mut Recorder, line: &str) -> String {
             env.last_enc = None;
             let Some(v) = sx::parse_val(&xs[3]) else { return "bad-op".into() };
             let Some(bytes) = (t.ser)(&v) else { return "bad-op".into() };
-            // oracle: decode the real bytes with the real IDL fragment (plain-Rust reference decoder)
+            // oracle: decode the real bytes with the real IDL fragment (plain-Rust reference decoder): the
+            // whole value — or, for a struct with a hidden tail, exactly its visible prefix
             let frag = &env.type_frag[t.name];
+            let (want_v, want_n) = match (t.skip, &v) {
+                (Some((k, hidden)), Val::Seq(vs)) => (Val::Seq(vs[..k.min(vs.len())].to_vec()), bytes.len().saturating_sub(hidden)),
+                _ => (v.clone(), bytes.len()),
+            };
             match sx::ref_decode(&env.type_idl, frag, &bytes) {
-                Some((got, n)) if got == v && n == bytes.len() => {}
+                Some((got, n)) if got == want_v && n == want_n => {}
                 other => rec.fail(&format!("idl_layout_does_not_decode_serializer_output:{}", t.name), &format!("{line}: bytes {} decoded {:?}", hex(&bytes), other.map(|(g, n)| (sx::show_val(&g), n)))),
             }
-            env.last_enc = Some((hex(&bytes), v, bytes.len()));
+            env.last_enc = Some((hex(&bytes), want_v, want_n));
             format!("ok {}", hex(&bytes))
         }
         ("dec", 3) => {
@@ -757,9 +776,14 @@ pub fn run(args: &Args) {
     let tys: Vec<(&'static str, String)> = env.types.iter().map(|t| (t.name, t.shape.clone())).collect();
     for (name, shape_txt) in tys {
         rec.case(&format!("case type {name}"));
-        go(&mut env, &mut rec, format!("ty {name} {shape_txt}"));
+        let ty_shape = match env.types.iter().find(|t| t.name == name).and_then(|t| t.skip) {
+            Some((k, _)) => shape_txt.replacen("(struct", &format!("(skipstruct {k}"), 1),
+            None => shape_txt.clone(),
+        };
+        go(&mut env, &mut rec, format!("ty {name} {ty_shape}"));
+        let skip = env.types.iter().find(|t| t.name == name).and_then(|t| t.skip);
         if let Some(fs) = types::expected_fields(name) {
-            go(&mut env, &mut rec, format!("fields {name} ({})", fs.join(" ")));
+            go(&mut env, &mut rec, format!("fields {name} {} ({})", skip.map(|s| s.0).unwrap_or(fs.len()), fs.join(" ")));
         }
         let shape = sx::parse_shape(&sx::parse_line(&shape_txt).unwrap()[0]).expect("harness shape parses");
         let frag = sx::show_idl_ty(&env.type_idl, &env.type_frag[name], 0);
